@@ -2,7 +2,7 @@
 C12 — all cell-derived geometry and tensor transforms are mutually consistent.
 
 One case = one cell (CELL line of a generated file) with a few atoms (fractional coordinates in [-2, 2], isotropic or
-anisotropic U) and point pairs.  Real objects: `Shelxfile.read_string`, `CELL.volume`, `CELL.o` (OrthogonalMatrix, `.m.det`,
+anisotropic U) and point pairs.  Real objects: `Shelxfile.read_string` (one case in ten: `read_file`), `CELL.volume`, `CELL.o` (OrthogonalMatrix, `.m.det`,
 `.inversed`), `Atom.cart_coords`, `Shelxfile.frac_to_cart`, `misc.frac_to_cart`, `misc.cart_to_frac`,
 `dsrmath.atomic_distance`, `Atom.ueq`, `Atom.is_npd()`.
 
@@ -17,6 +17,13 @@ Streams (DESIGN 3.2):
          public way (atom.uvals = …, atom.uvals[k] = …, set_uvals, to_isotropic, atom.frac_coords = …, Shelxfile.add_atom)
          -> second query of cart_coords / ueq / is_npd() / distances of ALL atoms, compared with the spec evaluated on the
          NEW values (edited atoms) resp. the unchanged values (all other atoms)                       (history_coherent)
+         The cell may change in place (shx.cell.set) anywhere in the history, the observables may be asked before the edits,
+         after every single edit ('observe_each') or only at the end; every time they are asked, the inverse of the
+         orthogonalisation (cell.o.inversed, shx.orthogonal_matrix.inversed, misc.cart_to_frac) has to map the atoms'
+         CURRENT Cartesian coordinates back to their current fractional ones      (file_history_coherent, inverse_memo_coherent)
+  flat   (a class of tensors inside the streams above) U33, U23, U13, U12 tiny but not all zero — sums of absolute values at and
+         next to every decade 1e-3 … 1e-9, where code that decides "isotropic / q-peak / regular atom" by magnitude has its
+         limits — in files, through every editing route and through add_atom: still a symmetric tensor, Ueq = tr(U_cart)/3
 The oracle is the driver's spec (metric tensor only); `impl vs spec` is a property failure, `impl vs model` (the Float
 instance of the mirrored code) a correspondence failure.  Nothing but the observables of the statement is compared.
 """
@@ -98,6 +105,32 @@ def make_cell(rng, cls):
     raise RuntimeError('no cell')
 
 
+CELL_VARIANTS = ['angles', 'lengths', 'one', 'swap']
+
+
+def vary_cell(rng, cell, how=None):
+    """a cell that shares part of its six numbers with `cell` (what a memo keyed on part of the parameters can not tell apart):
+    only the angles differ / only the lengths / one single parameter / two lengths exchanged"""
+    how = how or rng.choice(CELL_VARIANTS)
+    for _ in range(200):
+        new = list(cell)
+        if how == 'angles':
+            new[3:] = make_cell(rng, rng.choice(['triclinic', 'monoclinic', 'mono-gamma', 'rhombohedral', 'hexagonal']))[3:]
+        elif how == 'lengths':
+            new[:3] = [rlen(rng), rlen(rng), rlen(rng)]
+        elif how == 'one':
+            k = rng.randrange(6)
+            new[k] = rlen(rng) if k < 3 else rang(rng)
+        else:
+            i, j = rng.sample(range(3), 2)
+            new[i], new[j] = new[j], new[i]
+            if new == list(cell):
+                new[i] = rlen(rng)
+        if new != list(cell) and radicand(*new[3:]) > 0.02:
+            return new
+    return make_cell(rng, 'triclinic')
+
+
 def rcoord(rng):
     r = rng.random()
     if r < 0.1:
@@ -148,6 +181,12 @@ def make_u(rng, kind, cell=None):
         e = [s, -s * (1 - eps), s * rng.uniform(0.1, 0.9)]       # the positive one slightly larger
         rng.shuffle(e)
         return [round(v, 8) for v in cart_to_cif(cell, sym_from_eigs(rng, e))]
+    if kind == 'flat':
+        return flat_u(rng, flat_total(rng), rng.choice([1, 1, 2, 3, 4]))
+    if kind == 'small':         # an ordinary tensor (definite or not) at 1e-1 … 1e-6 of the usual size: nothing in the statement
+        # depends on the absolute size, an absolute tolerance anywhere in the code does
+        k = 10 ** rng.uniform(-6, -1)
+        return [round(v * k, 13) for v in make_u(rng, rng.choice(['pd', 'pd', 'indef', 'negdef']), cell)]
     if kind == 'pd':
         e = [s * rng.uniform(0.2, 1.0), s * rng.uniform(0.2, 1.0), s]
         nd = rng.choice([5, 5, 5, 4, 6])
@@ -195,14 +234,46 @@ def make_u(rng, kind, cell=None):
     return [round(v, nd) for v in sym_from_eigs(rng, e)]
 
 
-U_KINDS = ['pd', 'pd', 'pd', 'indef', 'indef', 'near', 'negdef', 'diag', 'singular', 'cancel', 'eqmod', 'blocksing']
+U_KINDS = ['pd', 'pd', 'pd', 'indef', 'indef', 'near', 'negdef', 'diag', 'singular', 'cancel', 'eqmod', 'blocksing', 'flat', 'small']
+
+# magnitudes at which code that sorts atoms into "isotropic / q-peak / regular" by the size of U33 … U12 may have a limit
+DECADES = [1e-3, 1e-4, 1e-5, 1e-6, 1e-7, 1e-8, 1e-9]
+NEXT_TO = [1.0, 0.98, 1.02]
 
 
-def make_case(rng, cls=None, ukinds=None):
+def flat_u(rng, total, spread, u22=None):
+    """ordinary U11 (and mostly U22); U33, U23, U13, U12 tiny, `spread` of them non-zero, |U33|+|U23|+|U13|+|U12| = total
+    (exactly, as decimals with 13 places; spread = 1 puts `total` itself into one component)"""
+    total = round(total, 13)
+    u11 = round(rng.uniform(0.01, 0.12), 5)
+    if u22 is None:
+        u22 = rng.choice([round(u11 * rng.uniform(0.3, 1), 5)] * 4 + [0.0, round(total * rng.uniform(0.2, 1), 13)])
+    units = max(int(round(total * 1e13)), spread)
+    ks = sorted(rng.sample(range(4), spread))
+    cuts = sorted(rng.sample(range(1, units), spread - 1)) if spread > 1 else []
+    parts = [b - a for a, b in zip([0] + cuts, cuts + [units])]
+    tail = [0.0] * 4
+    for k, n in zip(ks, parts):
+        sign = 1 if (k == 0 and rng.random() < 0.8) else rng.choice([1, -1])
+        tail[k] = sign * (float(total) if spread == 1 else round(n / 1e13, 13))
+    return [u11, u22] + tail
+
+
+def flat_total(rng):
+    r = rng.random()
+    if r < 0.4:
+        return rng.choice(DECADES) * rng.choice(NEXT_TO)
+    return 10 ** rng.uniform(-10, -3)
+
+
+def make_case(rng, cls=None, ukinds=None, us=None):
+    """`us`: the tensors themselves (list of (kind, six values)), one atom each"""
     cls = cls or rng.choice(CLASSES)
     cell = make_cell(rng, cls)
     atoms = []
-    for i in range(rng.randint(3, 6)):
+    for kind, u in us or []:
+        atoms.append(dict(xyz=[rcoord(rng), rcoord(rng), rcoord(rng)], u=list(u), kind=kind))
+    for i in range(0 if us else rng.randint(3, 6)):
         xyz = [rcoord(rng), rcoord(rng), rcoord(rng)]
         r = rng.random()
         if r < 0.2 and not ukinds:
@@ -227,20 +298,27 @@ def make_edits(rng, case):
         op = rng.choice(EDIT_OPS)
         i = rng.randrange(n)
         if op in ('uvals', 'set_uvals'):
-            edits.append(dict(op=op, i=i, u=make_u(rng, rng.choice(['pd', 'indef', 'negdef', 'near', 'diag', 'eqmod', 'blocksing']), case['cell'])))
+            edits.append(dict(op=op, i=i, u=make_u(rng, rng.choice(['pd', 'indef', 'negdef', 'near', 'diag', 'eqmod', 'blocksing', 'flat', 'small']), case['cell'])))
         elif op == 'uvals_iso':
             edits.append(dict(op='uvals', i=i, u=[round(rng.uniform(0.01, 0.2), 5), 0.0, 0.0, 0.0, 0.0, 0.0]))
         elif op == 'uvals_item':
-            edits.append(dict(op=op, i=i, k=rng.randrange(6), v=round(rng.uniform(-0.08, 0.12), 5)))
+            if rng.random() < 0.25:     # one tiny component (on an isotropic atom: no longer isotropic)
+                edits.append(dict(op=op, i=i, k=rng.randrange(2, 6), v=rng.choice([1, 1, -1]) * round(flat_total(rng), 13)))
+            else:
+                edits.append(dict(op=op, i=i, k=rng.randrange(6), v=round(rng.uniform(-0.08, 0.12), 5)))
         elif op == 'to_isotropic':
             edits.append(dict(op=op, i=i))
         elif op == 'frac_coords':
             edits.append(dict(op=op, i=i, xyz=[rcoord(rng), rcoord(rng), rcoord(rng)]))
         elif op == 'set_cell':      # the cell changed in place on the same object: shx.cell.set('CELL ...')
-            edits.append(dict(op=op, cell=make_cell(rng, rng.choice(CLASSES))))
+            if rng.random() < 0.5:  # … to an unrelated cell, or to one that keeps part of the current numbers
+                edits.append(dict(op=op, cell=make_cell(rng, rng.choice(CLASSES))))
+            else:
+                cur = ([case['cell']] + [e['cell'] for e in edits if e['op'] == 'set_cell'])[-1]
+                edits.append(dict(op=op, cell=vary_cell(rng, cur)))
         else:
             edits.append(dict(op='add_atom', xyz=[rcoord(rng), rcoord(rng), rcoord(rng)],
-                              u=make_u(rng, rng.choice(['pd', 'indef', 'diag']), case['cell'])))
+                              u=make_u(rng, rng.choice(['pd', 'indef', 'diag', 'flat']), case['cell'])))
     return edits
 
 
@@ -282,11 +360,20 @@ def cell_line(cell):
 # ------------------------------------------------------------------------------------------------
 # the real code
 
+def fmt_u(v):
+    """fixed-point text that reads back as the same double (8 places as a rule, more for tiny components)"""
+    for nd in (8, 13, 17):
+        t = f'{v:.{nd}f}'
+        if float(t) == float(v):
+            return t
+    return repr(float(v))
+
+
 def render(case):
     lines = ['TITL c12', cell_line(case['cell']),
              'ZERR 2 0.001 0.001 0.001 0.01 0.01 0.01', 'LATT -1', 'SFAC C H O', 'UNIT 8 16 4', 'FVAR 0.5']
     for i, a in enumerate(case['atoms']):
-        us = ' '.join(f'{v:.8f}' for v in a['u'])
+        us = ' '.join(fmt_u(v) for v in a['u'])
         x, y, z = a['xyz']
         lines.append(f'C{i + 1:<3d} 1 {x:.6f} {y:.6f} {z:.6f} 11.00000 {us}')
     lines += ['HKLF 4', 'END']
@@ -315,8 +402,17 @@ def observe_impl(case):
     if case.get('preread'):
         # the same Shelxfile object has read (and answered for) a file with another cell before
         shx.read_string(render(dict(case, cell=case['preread'])))
-        guard(lambda: [(a.ueq, a.cart_coords) for a in shx.atoms] + [shx.cell.volume, shx.cell.N])
-    shx.read_string(render(case))
+        guard(lambda: [(a.ueq, a.cart_coords) for a in shx.atoms] + [shx.cell.volume, shx.cell.N, shx.cell.o.inversed,
+                                                                      shx.orthogonal_matrix.inversed])
+    if case.get('via') == 'file':       # the other entry point: the same text in a file, read with read_file
+        import tempfile
+        from pathlib import Path
+        with tempfile.TemporaryDirectory(prefix='c12_') as tmp:
+            f = Path(tmp) / 'c12.res'
+            f.write_text(render(case))
+            shx.read_file(str(f))
+    else:
+        shx.read_string(render(case))
     atoms = list(shx.atoms)
     if len(atoms) != len(case['atoms']) or shx.cell is None:
         return dict(error=f'parse: {len(atoms)} atoms of {len(case["atoms"])}')
@@ -336,9 +432,10 @@ def observe_impl(case):
                  cart_misc=guard(lambda: as3(misc.frac_to_cart(list(xyz), list(cl)))))
         if isinstance(cart, list):
             o['back_inv'] = guard(lambda: as3(cell.o.inversed * Array(list(cart))))
+            o['back_shx'] = guard(lambda: as3(shx.orthogonal_matrix.inversed * Array(list(cart))))
             o['back_misc'] = guard(lambda: as3(misc.cart_to_frac(list(cart), list(cl))))
         else:
-            o['back_inv'] = o['back_misc'] = cart
+            o['back_inv'] = o['back_shx'] = o['back_misc'] = cart
         o['ueq'] = guard(lambda: float(a.ueq))
         if len(spec['u']) == 6:
             o['npd'] = guard(lambda: bool(a.is_npd()))
@@ -355,16 +452,16 @@ def observe_impl(case):
 
 
 def observe_after_edits(shx, atoms, cl, case):
-    """apply the edits to the parsed objects, then ask every atom again"""
-    from shelxfile.misc.dsrmath import atomic_distance
-    from shelxfile.misc import misc
+    """apply the edits to the parsed objects, then ask every atom again; with `observe_each` everything is also asked
+    after every single edit (`steps`: one observation per proper prefix of the history)"""
     atoms = list(atoms)
+    steps = []
+    last = len(case['edits']) - 1
     for k, e in enumerate(case['edits']):
         op = e['op']
         if op == 'set_cell':
             shx.cell.set(cell_line(e['cell']))
-            continue
-        if op == 'add_atom':
+        elif op == 'add_atom':
             before = len(list(shx.atoms))
             r = guard(lambda: shx.add_atom(name=f'X{k}', coordinates=list(e['xyz']), element='C', uvals=list(e['u'])))
             now = list(shx.atoms)
@@ -372,25 +469,43 @@ def observe_after_edits(shx, atoms, cl, case):
                 return dict(error=f'add_atom: {r}, {len(now)} atoms after {before}')
             new = [a for a in now if not any(a is b for b in atoms)]
             atoms.append(new[0])
-            continue
-        a = atoms[e['i']]
-        if op == 'uvals':
-            a.uvals = list(e['u'])
-        elif op == 'set_uvals':
-            a.set_uvals(list(e['u']))
-        elif op == 'uvals_item':
-            a.uvals[e['k']] = e['v']
-        elif op == 'to_isotropic':
-            a.to_isotropic()
-        elif op == 'frac_coords':
-            a.frac_coords = list(e['xyz'])
+        else:
+            a = atoms[e['i']]
+            if op == 'uvals':
+                a.uvals = list(e['u'])
+            elif op == 'set_uvals':
+                a.set_uvals(list(e['u']))
+            elif op == 'uvals_item':
+                a.uvals[e['k']] = e['v']
+            elif op == 'to_isotropic':
+                a.to_isotropic()
+            elif op == 'frac_coords':
+                a.frac_coords = list(e['xyz'])
+        if case.get('observe_each') and k < last:
+            steps.append(guard(lambda: observe_now(shx, atoms)))
+    out = observe_now(shx, atoms)
+    out['steps'] = steps
+    return out
+
+
+def observe_now(shx, atoms):
+    from shelxfile.misc.dsrmath import Array, atomic_distance
+    from shelxfile.misc import misc
     cl = guard(lambda: [float(v) for v in list(shx.cell)])
     out = dict(atoms=[], pairs=[], cell=cl, V=guard(lambda: float(shx.cell.volume)), det=guard(lambda: float(shx.cell.o.m.det)))
     for a in atoms:
-        out['atoms'].append(dict(cart=guard(lambda: as3(a.cart_coords)), frac=guard(lambda: as3(a.frac_coords)),
-                                 cart_shx=guard(lambda: as3(shx.frac_to_cart(list(a.frac_coords)))),
-                                 cart_misc=guard(lambda: as3(misc.frac_to_cart(list(a.frac_coords), list(shx.cell)))),
-                                 ueq=guard(lambda: float(a.ueq)), npd=guard(lambda: bool(a.is_npd()))))
+        o = dict(cart=guard(lambda: as3(a.cart_coords)), frac=guard(lambda: as3(a.frac_coords)),
+                 cart_shx=guard(lambda: as3(shx.frac_to_cart(list(a.frac_coords)))),
+                 cart_misc=guard(lambda: as3(misc.frac_to_cart(list(a.frac_coords), list(shx.cell)))),
+                 ueq=guard(lambda: float(a.ueq)), npd=guard(lambda: bool(a.is_npd())))
+        cart = o['cart']
+        if isinstance(cart, list):      # the inverse maps the atom's current Cartesian coordinates back
+            o['back_inv'] = guard(lambda: as3(shx.cell.o.inversed * Array(list(cart))))
+            o['back_shx'] = guard(lambda: as3(shx.orthogonal_matrix.inversed * Array(list(cart))))
+            o['back_misc'] = guard(lambda: as3(misc.cart_to_frac(list(cart), list(shx.cell))))
+        else:
+            o['back_inv'] = o['back_shx'] = o['back_misc'] = cart
+        out['atoms'].append(o)
     n = len(atoms)
     for i in range(n):
         j = (i + 1) % n
@@ -451,25 +566,32 @@ def evaluate(ctx, cases, stream=None):
     finals = {}
     for ci, case in enumerate(cases):
         if case.get('edits'):
-            st = final_state(case)
-            n = len(st)
-            finals[ci] = (st, len(reqs))
-            reqs.append(dict(p='C12', op='cell', cell=final_cell(case), pts=[a['xyz'] for a in st],
-                             pairs=[[st[i]['xyz'], st[(i + 1) % n]['xyz']] for i in range(n)], us=[a['u'] for a in st]))
-            for i, a in enumerate(st):      # the model of the object under the same history, atom by atom
-                reqs.append(hist_request(case, a, i))
+            ne = len(case['edits'])
+            finals[ci] = []
+            for k in (range(1, ne + 1) if case.get('observe_each') else [ne]):     # every prefix after which everything is asked
+                pc = case if k == ne else dict(case, edits=case['edits'][:k])
+                st = final_state(pc)
+                n = len(st)
+                finals[ci].append((k, pc, st, len(reqs)))
+                reqs.append(dict(p='C12', op='cell', cell=final_cell(pc), pts=[a['xyz'] for a in st],
+                                 pairs=[[st[i]['xyz'], st[(i + 1) % n]['xyz']] for i in range(n)], us=[a['u'] for a in st]))
+                for i, a in enumerate(st):      # the model of the object under the same history, atom by atom
+                    reqs.append(hist_request(pc, a, i))
     ans = ctx.driver.batch(reqs)
     for s in ('cell', 'cart', 'dist', 'ueq', 'npd', 'edit'):
         ctx.stream(s)
     for ci, (case, obs, r) in enumerate(zip(cases, impls, ans[:nreq])):
         if ci in finals and not (isinstance(obs, str) or 'error' in obs):
-            k = finals[ci][1]
-            check_edits(ctx, case, finals[ci][0], obs.get('edit'), ans[k], ans[k + 1:k + 1 + len(finals[ci][0])])
+            eo = obs.get('edit')
+            whole = not isinstance(eo, dict) or 'error' in eo       # the history itself failed: reported for the whole case
+            for k, pc, st, q in (finals[ci][-1:] if whole else finals[ci]):
+                o = eo if (whole or k == len(case['edits'])) else eo['steps'][k - 1]
+                check_edits(ctx, pc, st, o, ans[q], ans[q + 1:q + 1 + len(st)])
         if isinstance(obs, dict) and obs.get('skipped0'):
             continue
         cls = case.get('cls', '?')
         obl = cell_tag(case)
-        base = dict(cls=cls, cell=case['cell'])
+        base = dict(cls=cls, cell=case['cell'], **({'via': case['via']} if 'via' in case else {}))
         if isinstance(obs, str) or 'error' in obs:
             ctx.fail(f'C12|parse|{cls}', f'generated valid file not read as expected: {obs}', dict(case=case, stream='cell', actual=obs),
                      kind='correspondence')
@@ -480,7 +602,7 @@ def evaluate(ctx, cases, stream=None):
             return dict(base, atoms=[case['atoms'][i] for i in idx], pairs=[list(p) for p in pairs])
 
         # ---- cell -------------------------------------------------------------------------------------
-        ctx.count(['cell', case['cell']], nontrivial=obl == 'oblique', tags=['cell', 'class=' + cls, obl],
+        ctx.count(['cell', case['cell']], nontrivial=obl == 'oblique', tags=['cell', 'class=' + cls, obl, 'read-via=' + case.get('via', 'string')],
                   sample=dict(stream='cell', cell=case['cell'], impl_V=obs['V'], spec_V=r['spec_V']))
         for name, got in (('volume', obs['V']), ('det', obs['det'])):
             pl = dict(case=sub([]), stream='cell', expected=r['spec_V'], actual=got, model=r['V'] if name == 'volume' else r['det'])
@@ -513,6 +635,7 @@ def evaluate(ctx, cases, stream=None):
                     ctx.fail(f'C12|cart|length|{obl}', f'|cart_coords({xyz})| = {ln}, metric tensor gives {rp["spec_len"]} in cell {case["cell"]}',
                              dict(case=sub([i]), stream='cart', expected=rp['spec_len'], actual=ln))
             for name, label, model in (('back_inv', 'OrthogonalMatrix.inversed * cart', rp['back_inv']),
+                                       ('back_shx', 'shx.orthogonal_matrix.inversed * cart', rp['back_inv']),
                                        ('back_misc', 'misc.cart_to_frac(cart)', rp['back_misc'])):
                 got = o[name]
                 pl = dict(case=sub([i]), stream='cart', expected=xyz, actual=got, model=model)
@@ -578,22 +701,31 @@ def evaluate(ctx, cases, stream=None):
 
 
 def hist_request(case, a, i):
+    """the model of the object under the same history: the edits that touch atom i, the cell changes, and an `ask` wherever
+    the harness evaluates cell.o.inversed (first query before the edits unless prequery is False; after every edit with
+    observe_each)"""
+    ask = [dict(op='ask')]
+    first = ask if case.get('prequery') is not False else []
+    each = ask if case.get('observe_each') else []
     if a['orig'] is None:
         e0 = case['edits'][a['edit']]
         cell = case['cell']
         for e in case['edits'][:a['edit']]:
             if e['op'] == 'set_cell':
                 cell = e['cell']
-        later = [dict(op='cell', cell=e['cell']) for e in case['edits'][a['edit'] + 1:] if e['op'] == 'set_cell']
-        return dict(p='C12', op='hist', cell=cell, xyz=e0['xyz'], u=e0['u'], new=True, edits=later)
-    es = []
+        later = []
+        for e in case['edits'][a['edit'] + 1:]:
+            if e['op'] == 'set_cell':
+                later.append(dict(op='cell', cell=e['cell']))
+            later += each
+        return dict(p='C12', op='hist', cell=cell, xyz=e0['xyz'], u=e0['u'], new=True, edits=each + later)
+    es = list(first)
     for e in case['edits']:
         if e['op'] == 'set_cell':
             es.append(dict(op='cell', cell=e['cell']))
-            continue
-        if e['op'] == 'add_atom' or e['i'] != i:
-            continue
-        if e['op'] in ('uvals', 'set_uvals'):
+        elif e['op'] == 'add_atom' or e['i'] != i:
+            pass
+        elif e['op'] in ('uvals', 'set_uvals'):
             es.append(dict(op=e['op'], u=e['u']))
         elif e['op'] == 'uvals_item':
             es.append(dict(op='item', k=e['k'], v=e['v']))
@@ -601,6 +733,7 @@ def hist_request(case, a, i):
             es.append(dict(op='uvals', u=[0.04, 0.0, 0.0, 0.0, 0.0, 0.0]))
         else:
             es.append(dict(op='frac', xyz=e['xyz']))
+        es += each
     o = case['atoms'][a['orig']]
     return dict(p='C12', op='hist', cell=case['cell'], xyz=o['xyz'], u=u_full(o['u']), new=False, edits=es)
 
@@ -626,7 +759,7 @@ def check_edits(ctx, case, st, obs, r, hist):
             elif e['i'] in remap:
                 es.append(dict(e, i=remap[e['i']]))
         sc = dict(cls=cls, cell=case['cell'], atoms=[case['atoms'][st[i]['orig']] for i in keep], pairs=[], edits=es)
-        for key in ('prequery', 'preread'):
+        for key in ('prequery', 'preread', 'observe_each', 'via'):
             if key in case:
                 sc[key] = case[key]
         return sc
@@ -649,7 +782,8 @@ def check_edits(ctx, case, st, obs, r, hist):
             if not close(got, r['spec_V']):
                 ctx.fail(f'C12|edit|cell-by=set|{name}', f'after {edits}: {"CELL.volume" if name == "volume" else "det of cell.o"} = {got}, '
                          f'the current cell {fcell} has volume {r["spec_V"]}', dict(case=sub([]), stream='edit', expected=r['spec_V'], actual=got))
-    ctx.count(['edit', case['cell'], [a['xyz'] for a in case['atoms']], edits], nontrivial=True, tags=['edit'] + ['op=' + o for o in ops],
+    ctx.count(['edit', case['cell'], [a['xyz'] for a in case['atoms']], edits], nontrivial=True,
+              tags=['edit'] + ['op=' + o for o in ops] + (['asked-after-every-edit'] if case.get('observe_each') else []),
               sample=dict(stream='edit', cell=case['cell'], edits=edits[:2], after=[dict(ueq=o['ueq'], npd=o['npd']) for o in obs['atoms'][:2]]))
     for i, (a, o, rp, ru, hm) in enumerate(zip(st, obs['atoms'], r['pts'], r['us'], hist)):
         tag = f'xyz-by={a["last_xyz"]}{cellby}'
@@ -673,6 +807,17 @@ def check_edits(ctx, case, st, obs, r, hist):
                          f'reference for the current cell {fcell} is {rp["spec_cart"]}',
                          dict(case=sub([i]), stream='edit', expected=rp['spec_cart'], actual=o[name], model=hm['cart_shx'],
                               model_before_repair=hm['cart_shx_old']))
+        # the inverse of the orthogonalisation maps the current Cartesian coordinates back to the current fractional ones
+        if close3(o['frac'], a['xyz'], 1e-12, 1e-12) and close3(o['cart'], rp['spec_cart']):
+            for name, label in (('back_inv', 'shx.cell.o.inversed * cart_coords'), ('back_shx', 'shx.orthogonal_matrix.inversed * cart_coords'),
+                                ('back_misc', 'misc.cart_to_frac(cart_coords, list(shx.cell))')):
+                if not close3(o[name], a['xyz'], 1e-9, 1e-9):
+                    ctx.fail(f'C12|edit|{tag}|{name}', f'after {edits}: {label} of atom {i} = {o[name]} does not map its Cartesian '
+                             f'coordinates {o["cart"]} back to its fractional coordinates {a["xyz"]} (current cell {fcell})',
+                             dict(case=sub([i]), stream='edit', expected=a['xyz'], actual=o[name], model=hm['back_inv']))
+                elif name != 'back_misc' and not close3(o[name], hm['back_inv'], 1e-9, 1e-9):
+                    ctx.fail(f'C12|edit|{name}|model', f'after {edits}: {label} of atom {i} = {o[name]}, model of the object {hm["back_inv"]}',
+                             dict(case=sub([i]), stream='edit', expected=a['xyz'], actual=o[name], model=hm['back_inv']), kind='correspondence')
         # Ueq
         u = a['u']
         iso = not any(u[2:]) and u[0] > 0
@@ -740,6 +885,8 @@ MIRRORED = {
     'shelxfile/atoms/atom.py::Atom.set_uvals': 'a5b2c8db88557538',
     'shelxfile/atoms/atom.py::Atom.set_atom_parameters': '2fa34292756ea040',
     'shelxfile/shelx/shelx.py::Shelxfile.add_atom': 'e9a7ca4d05f25b33',
+    'shelxfile/shelx/cards.py::CELL.set': 'c19791ac89045ee8',
+    'shelxfile/shelx/cards.py::Command.set': 'd428573338c56f3f',
 }
 
 
@@ -755,12 +902,65 @@ def mirrored_changed():
         return [f'(digests not computed: {e!r})']
 
 
+def flat_cases(rng):
+    """every decade 1e-3 … 1e-9 x (at, just below, just above) x (one component / all four) for |U33|+|U23|+|U13|+|U12|, in
+    files of two different cell classes; then the same magnitudes through every editing route"""
+    cases = []
+    for n, d in enumerate(DECADES):
+        us = [('flat', flat_u(rng, d * f, spread)) for f in NEXT_TO for spread in (1, 4)]
+        for cls in ('orthorhombic', CLASSES[n % len(CLASSES)] if CLASSES[n % len(CLASSES)] not in ('orthorhombic', 'cubic', 'tetragonal') else 'triclinic'):
+            cases.append(make_case(rng, cls, us=us))
+    routes = ['uvals', 'set_uvals', 'uvals_item', 'add_atom']
+    for n, d in enumerate(DECADES):
+        for r, op in enumerate(routes):
+            f = NEXT_TO[(n + r) % 3]
+            c = make_case(rng, 'triclinic' if (n + r) % 2 else 'monoclinic', ukinds=['pd', 'diag'])
+            iso = [round(rng.uniform(0.01, 0.2), 5), 0.0, 0.0, 0.0, 0.0, 0.0]
+            if op == 'uvals_item':      # an isotropic atom gets one tiny component
+                c['edits'] = [dict(op='uvals', i=0, u=iso), dict(op='uvals_item', i=0, k=2 + (n + r) % 4, v=round(d * f, 13))]
+            elif op == 'add_atom':
+                c['edits'] = [dict(op='add_atom', xyz=[rcoord(rng), rcoord(rng), rcoord(rng)], u=flat_u(rng, d * f, 1 + (n + r) % 4))]
+            else:
+                c['edits'] = [dict(op=op, i=0, u=flat_u(rng, d * f, 1 + (n + r) % 4))]
+            if (n + r) % 3 == 0:
+                c['prequery'] = False
+            cases.append(c)
+    return cases
+
+
+def cell_history_cases(rng):
+    """the cell changed in place twice with a move of an atom in between, for every class of the first cell x asked before /
+    not asked before x asked after every edit / only at the end; the first change is to an unrelated cell or to one that keeps
+    part of the six numbers (only angles / only lengths / one parameter differ, two lengths exchanged), the second likewise"""
+    cases = []
+    hows = [None] + CELL_VARIANTS
+    for n, cls in enumerate(CLASSES):
+        for pre in (True, False):
+            for each in (True, False):
+                c = make_case(rng, cls)
+                k = n + 2 * pre + each
+                h1, h2 = hows[k % 5], hows[(k // 5 + k + 2) % 5]
+                c1 = vary_cell(rng, c['cell'], h1) if h1 else make_cell(rng, CLASSES[(n + 3) % len(CLASSES)])
+                c2 = vary_cell(rng, c1, h2) if h2 else make_cell(rng, 'triclinic')
+                c['edits'] = [dict(op='set_cell', cell=c1),
+                              dict(op='frac_coords', i=0, xyz=[rcoord(rng), rcoord(rng), rcoord(rng)]),
+                              dict(op='set_cell', cell=c2)]
+                if not pre:
+                    c['prequery'] = False
+                if each:
+                    c['observe_each'] = True
+                cases.append(c)
+    return cases
+
+
 def run(ctx):
     ctx.rule = ('generated files: one CELL (triclinic, monoclinic in each setting, orthorhombic, tetragonal, hexagonal with gamma = 120, '
                 'rhombohedral, cubic; a, b, c in [2, 100]; volume radicand > 0.02), 3-6 atoms with coordinates in [-2, 2] and U tensors '
                 '(positive definite, indefinite incl. Cartesian eigenvalues of equal magnitude and opposite sign, negative definite, nearly '
                 'singular on either side, singular, an exactly singular 2x2 principal block in an indefinite tensor, diagonal, isotropic, six '
-                'values whose last four sum to 0); distinct by (cell, coordinates or U); non-trivial = at least one angle differs from 90 '
+                'values whose last four sum to 0, U33 U23 U13 U12 tiny but not all zero with absolute sums at and next to 1e-3 … 1e-9); '
+                'histories of edits incl. in-place cell changes, observed at the end or after every edit; '
+                'distinct by (cell, coordinates or U); non-trivial = at least one angle differs from 90 '
                 '(and, for tensors, a non-zero off-diagonal U; for is_npd, the tensor is outside the 1e-9 boundary band)')
     ctx.assumptions = ['math.cos/sin/sqrt satisfy their algebraic relations up to rounding (hypotheses ValidCell, IsSqrt of the theorems)',
                        'the QR iteration of misc.eigenvals is not proved convergent: its sign pattern is certified per case against the '
@@ -789,8 +989,12 @@ def run(ctx):
                         c['cls'] = 'grid'
                         cases.append(c)
         ctx.extra['grid'] = 'all angle triples from {60, 75, 90, 105, 120} with positive volume'
-    for _ in range(n):
+    cases += flat_cases(ctx.rng)             # small systematic enumerations first (part of every run) …
+    cases += cell_history_cases(ctx.rng)
+    for k in range(n):                       # … random cases after
         cases.append(make_case(ctx.rng))
+        if k % 10 == 0:
+            cases[-1]['via'] = 'file'
     for _ in range(8000 if thorough else (1000 if (changed or ctx.escalated) else 500)):     # the class on which an unshifted eigenvalue iteration is slow
         cases.append(make_case(ctx.rng, ukinds=['eqmod']))
     for _ in range(4000 if thorough else (1200 if (changed or ctx.escalated) else 600)):      # a minor that is zero up to rounding
@@ -800,8 +1004,13 @@ def run(ctx):
         c['edits'] = make_edits(ctx.rng, c)
         if ctx.rng.random() < 0.3:
             c['prequery'] = False          # the edits come before anything is asked
+        if len(c['edits']) > 1 and ctx.rng.random() < 0.4:
+            c['observe_each'] = True       # … and everything is asked again after every single edit
+        if ctx.rng.random() < 0.1:
+            c['via'] = 'file'
         if ctx.rng.random() < 0.15:
-            c['preread'] = make_cell(ctx.rng, ctx.rng.choice(CLASSES))     # the object has read another cell before
+            # the object has read another cell before (unrelated, or sharing part of the six numbers)
+            c['preread'] = make_cell(ctx.rng, ctx.rng.choice(CLASSES)) if ctx.rng.random() < 0.5 else vary_cell(ctx.rng, c['cell'])
         cases.append(c)
     for i in range(0, len(cases), 400):
         evaluate(ctx, cases[i:i + 400])
